@@ -1,5 +1,30 @@
-(* C15: END-TO-END rounding bound of the cubic trajectory (src/trajpoly3.c) in the standard model of floating-point
-   arithmetic (Common/RoundOps.v).  WORK IN PROGRESS FILE HEADER - rewritten at the end. *)
+(* C15: END-TO-END rounding bound of the generated cubic and quintic trajectories (src/trajpoly3.c, src/trajpoly5.c) in
+   the standard model of floating-point arithmetic with gradual underflow (Common/RoundOps.v):
+
+     the coefficients are COMPUTED by trajpoly3_gen / trajpoly5_gen with every operation rounded, then the position /
+     velocity / acceleration polynomial is EVALUATED at t = ts by Horner's rule with every operation rounded
+     (the same Gallina terms a_trajpoly{3,5}_gen/_pos/_vel/_acc are tied to, instantiated at Rnd_ops rnd);
+     the result is within an explicit multiple of eps of the requested end value p1 / v1 / a1.
+
+   For EVERY rounding rnd with std_model rnd eps eta, eps <= 2^-20, eta <= 1, every ts <> 0 and all real boundary data:
+     cubic    |pos(ts) - p1| <=  20 eps (|p0| + 5|p1-p0| + |ts|(4|v0| + 2|v1|))         + 48  eta E(3,3)   <= 100 eps S + ..
+              |vel(ts) - v1| <=  20 eps (8|v0| + 5|v1| + 12|p1-p0|/|ts|)                + 192 eta E(3,2)   <= 240 eps S/|ts| + ..
+       with S = |p0| + |p1-p0| + |ts|(|v0|+|v1|)  (and 120 / 240 for the scale |p0| + |p1| + |ts|(|v0|+|v1|)),
+       E(n,m) = (1 + 1/|ts|)^n (1 + |ts|)^m (1 + |p1-p0| + |v0| + |v1|);
+     quintic  (additional hypothesis rnd 2 = 2, see below)  33 eps (weighted scale) + C eta E5(5,m), i.e.
+              1056 eps S5, 3960 eps S5/|ts|, 11880 eps S5/|ts|^2 for position, velocity, acceleration,
+              S5 = |p0| + |p1| + |ts|(|v0|+|v1|) + |ts|^2(|a0|+|a1|).
+   At t = 0 the outputs are rnd p0, rnd v0 (the stored c0 = p0, c1 = v0 times/plus zeros): exact for format numbers.
+   No hypothesis that the data are representable; the constants 1, -2, 3, 2, ... of the formulas are rounded by the model
+   (ofZ z = rnd (IZR z)) and that rounding is accounted for (it only costs a larger count), EXCEPT the divisor 2 of
+   `half' = rnd (rnd 1 / rnd 2) in the quintic, where rnd 2 = 2 is assumed (true in every binary format; discharged for
+   binary64).  Overflow is outside the model (RoundOps.v).  The septic generator is NOT covered here.
+
+   Method: a small calculus `approx xh x k a b' (|x| <= a, |xh - x| <= ((1+eps)^k - 1) a + eta (1+eps)^k b) closed
+   under rounded + - * and division by an exact number; a syntax-directed tactic builds the statement for the whole
+   program term; then (1) the exact value is p1 by the field identity of PolyProofs, (2) the magnitude a equals the
+   weighted scale by a field identity, (3) the underflow coefficient b, a polynomial with non-negative coefficients in
+   1/|ts|, |ts| and the data, is dominated monomial by monomial by C E(n,m), (4) (1+eps)^k - 1 <= (k+1) eps. *)
 From Coq Require Import Reals ZArith List Lra Lia.
 From LibaV Require Import Common.NumOps Common.ROps Common.RoundOps Common.RoundFlocq C15.PolyDefs C15.PolyProofs.
 Import ListNotations.
@@ -198,8 +223,19 @@ Ltac ap_step M Heta1 rnd ts Hts :=
 Ltac ap_build M Heta1 rnd ts Hts := repeat (ap_step M Heta1 rnd ts Hts).
 
 (* 0 <= polynomial with non-negative coefficients in non-negative variables *)
-Ltac pos_poly := repeat first [ assumption | apply Rplus_le_le_0_compat | apply Rmult_le_pos | apply pow_le | lra ].
+Ltac pos_poly :=
+  repeat first [ assumption | apply Rplus_le_le_0_compat | apply Rmult_le_pos | apply pow_le
+               | apply Rle_0_1 | match goal with |- 0 <= IZR _ => lra | |- 0 <= / IZR _ => lra end ].
 Ltac poly_le := match goal with |- ?l <= ?r => let D := fresh "D" in assert (D : 0 <= r - l); [ring_simplify; pos_poly|lra] end.
+(* the same when the coefficients are fractions: clear the denominators first (no variable occurs in a denominator) *)
+Ltac poly_le_frac :=
+  match goal with |- ?l <= ?r =>
+    let D := fresh "D" in
+    assert (D : 0 <= r - l);
+    [ match goal with |- 0 <= ?e => field_simplify e end;
+      first [ unfold Rdiv; apply Rmult_le_pos; [pos_poly|lra] | pos_poly ]
+    | lra ]
+  end.
 
 Definition traj3_pos_scale (ts p0 p1 v0 v1 : R) : R := Rabs p0 + 5 * Rabs (p1 - p0) + Rabs ts * (4 * Rabs v0 + 2 * Rabs v1).
 Definition traj3_vel_scale (ts p0 p1 v0 v1 : R) : R := 8 * Rabs v0 + 5 * Rabs v1 + 12 * (Rabs (p1 - p0) / Rabs ts).
@@ -329,6 +365,33 @@ Proof.
   split; lra.
 Qed.
 
+(* position and velocity together: the natural scale, and the sharper weighted scale *)
+Theorem traj3_end_rounding_bound (rnd : R -> R) (eps eta : R) : std_model rnd eps eta -> eps <= / 1048576 -> eta <= 1 ->
+  forall ts p0 p1 v0 v1, ts <> 0 ->
+  let c := trajpoly3_gen (Rnd_ops rnd) ts p0 p1 v0 v1 in
+  exists pr vr, traj_pos (Rnd_ops rnd) c ts = Some pr /\ traj_vel (Rnd_ops rnd) c ts = Some vr /\
+    Rabs (pr - p1) <= 120 * eps * traj3_Snat ts p0 p1 v0 v1 + 48 * eta * traj3_eta_scale 3 3 ts p0 p1 v0 v1 /\
+    Rabs (vr - v1) <= 240 * eps * (traj3_Snat ts p0 p1 v0 v1 / Rabs ts) + 192 * eta * traj3_eta_scale 3 2 ts p0 p1 v0 v1.
+Proof.
+  intros M He Ht ts p0 p1 v0 v1 Hts c.
+  destruct (traj3_end_pos_rounding_bound _ _ _ M He Ht ts p0 p1 v0 v1 Hts) as (pr & E1 & _ & B1).
+  destruct (traj3_end_vel_rounding_bound _ _ _ M He Ht ts p0 p1 v0 v1 Hts) as (vr & E2 & _ & B2).
+  exists pr, vr. repeat split; assumption.
+Qed.
+
+Theorem traj3_end_rounding_weighted (rnd : R -> R) (eps eta : R) : std_model rnd eps eta -> eps <= / 1048576 -> eta <= 1 ->
+  forall ts p0 p1 v0 v1, ts <> 0 ->
+  let c := trajpoly3_gen (Rnd_ops rnd) ts p0 p1 v0 v1 in
+  exists pr vr, traj_pos (Rnd_ops rnd) c ts = Some pr /\ traj_vel (Rnd_ops rnd) c ts = Some vr /\
+    Rabs (pr - p1) <= 20 * eps * traj3_pos_scale ts p0 p1 v0 v1 + 48 * eta * traj3_eta_scale 3 3 ts p0 p1 v0 v1 /\
+    Rabs (vr - v1) <= 20 * eps * traj3_vel_scale ts p0 p1 v0 v1 + 192 * eta * traj3_eta_scale 3 2 ts p0 p1 v0 v1.
+Proof.
+  intros M He Ht ts p0 p1 v0 v1 Hts c.
+  destruct (traj3_end_pos_weighted _ _ _ M He Ht ts p0 p1 v0 v1 Hts) as (pr & E1 & B1).
+  destruct (traj3_end_vel_weighted _ _ _ M He Ht ts p0 p1 v0 v1 Hts) as (vr & E2 & B2).
+  exists pr, vr. repeat split; assumption.
+Qed.
+
 (* the start of the trajectory: c0 = p0 and c1 = v0 are stored as given, and evaluating at 0 multiplies by 0 and adds 0,
    so the outputs at time 0 are rnd p0 and rnd v0: EXACTLY p0 and v0 whenever these are numbers of the format
    (they are: the C receives them as a_real) *)
@@ -368,4 +431,201 @@ Proof.
   destruct (traj3_end_pos_rounding_bound _ _ _ std_model_binary64 eps64_small eta64_le1 ts p0 p1 v0 v1 Hts) as (pr & E1 & _ & B1).
   destruct (traj3_end_vel_rounding_bound _ _ _ std_model_binary64 eps64_small eta64_le1 ts p0 p1 v0 v1 Hts) as (vr & E2 & _ & B2).
   exists pr, vr. repeat split; assumption.
+Qed.
+
+(* ================================================================== quintic *)
+Definition traj5_pos_scale (ts p0 p1 v0 v1 a0 a1 : R) : R :=
+  Rabs p0 + 31 * Rabs (p1 - p0) + Rabs ts * (18 * Rabs v0 + 14 * Rabs v1) + Rabs ts ^ 2 * (4 * Rabs a0 + 2 * Rabs a1).
+Definition traj5_vel_scale (ts p0 p1 v0 v1 a0 a1 : R) : R :=
+  66 * Rabs v0 + 55 * Rabs v1 + Rabs ts * (14 * Rabs a0 + 8 * Rabs a1) + 120 * (Rabs (p1 - p0) / Rabs ts).
+Definition traj5_acc_scale (ts p0 p1 v0 v1 a0 a1 : R) : R :=
+  38 * Rabs a0 + 25 * Rabs a1 + (192 * Rabs v0 + 168 * Rabs v1) / Rabs ts + 360 * (Rabs (p1 - p0) / Rabs ts ^ 2).
+Definition traj5_eta_scale (n m : nat) (ts p0 p1 v0 v1 a0 a1 : R) : R :=
+  (1 + / Rabs ts) ^ n * (1 + Rabs ts) ^ m * (1 + Rabs (p1 - p0) + Rabs v0 + Rabs v1 + Rabs a0 + Rabs a1).
+
+Section Quintic.
+  Variable rnd : R -> R.
+  Variables eps eta : R.
+  Hypothesis M : std_model rnd eps eta.
+  Hypothesis Heps : eps <= / 1048576.
+  Hypothesis Heta1 : eta <= 1.
+  Hypothesis H2 : rnd 2 = 2.       (* the constant (a_real)(1.0 / 2) of the C is computed with an exact 2 *)
+  Variables ts p0 p1 v0 v1 a0 a1 : R.
+  Hypothesis Hts : ts <> 0.
+
+  Lemma ap_half : approx eps eta (rnd (rnd 1 / rnd 2)) (1 / 2) 2 (/ 2) (3 / 2).
+  Proof.
+    rewrite H2. pose proof (ap_div _ _ _ M _ _ _ _ _ 2 (ap_const _ _ _ M 1)) as H.
+    rewrite (Rabs_pos_eq 2) in H by lra. cbn [Z.abs] in H.
+    replace (1 * / 2) with (/ 2) in H by lra. replace (/ 2 + 1) with (3 / 2) in H by lra. apply H. lra.
+  Qed.
+
+  Ltac close5 C :=
+    match goal with |- Rabs (?t - _) <= _ =>
+      let H := fresh "HA" in
+      eassert (H : approx eps eta t _ _ _ _) by (ap_build M Heta1 rnd ts Hts);
+      cbn [Nat.max Nat.add Z.abs] in H;
+      eapply (ap_finish _ _ _ M _ _ _ _ _ _ _ _ _ C _ H);
+      [ try reflexivity; field; exact Hts
+      | unfold traj5_pos_scale, traj5_vel_scale, traj5_acc_scale; field; lra
+      | unfold traj5_eta_scale; clear H; generalize dependent (/ Rabs ts); intros u; intros; poly_le_frac
+      | simpl; lra | simpl; lra | simpl; lra | lra ]
+    end.
+  Ltac facts5 :=
+    pose proof (eps_ge0 _ _ _ M) as Hu;
+    assert (HT : 0 < Rabs ts) by (apply Rabs_pos_lt; exact Hts);
+    assert (HU : 0 <= / Rabs ts) by (left; apply Rinv_0_lt_compat; exact HT);
+    pose proof (Rabs_pos v0); pose proof (Rabs_pos v1); pose proof (Rabs_pos a0); pose proof (Rabs_pos a1);
+    pose proof (Rabs_pos (p1 - p0)); pose proof (Rabs_pos p0);
+    assert (HT0 : 0 <= Rabs ts) by lra;
+    assert (Hp : approx eps eta (rnd (p1 - p0)) (p1 - p0) 1 (Rabs (p1 - p0)) 1) by (apply (ap_rnd_exact _ _ _ M));
+    set (ph := rnd (p1 - p0)) in *;
+    pose proof ap_half as Hh; set (hf := rnd (rnd 1 / rnd 2)) in *.
+
+  Theorem traj5_end_pos_weighted :
+    exists vr, traj_pos (Rnd_ops rnd) (trajpoly5_gen (Rnd_ops rnd) ts p0 p1 v0 v1 a0 a1) ts = Some vr /\
+      Rabs (vr - p1) <= 33 * eps * traj5_pos_scale ts p0 p1 v0 v1 a0 a1 + 1664 * eta * traj5_eta_scale 5 5 ts p0 p1 v0 v1 a0 a1.
+  Proof.
+    unfold traj_pos, poly_eval, trajpoly5_gen, half. cbn [rev app fold_left]. unfold_rops. facts5.
+    eexists. split; [reflexivity|]. close5 832.
+  Qed.
+
+  Theorem traj5_end_vel_weighted :
+    exists vr, traj_vel (Rnd_ops rnd) (trajpoly5_gen (Rnd_ops rnd) ts p0 p1 v0 v1 a0 a1) ts = Some vr /\
+      Rabs (vr - v1) <= 33 * eps * traj5_vel_scale ts p0 p1 v0 v1 a0 a1 + 9984 * eta * traj5_eta_scale 5 4 ts p0 p1 v0 v1 a0 a1.
+  Proof.
+    unfold traj_vel, poly_eval, c1_of, trajpoly5_gen, half.
+    cbn [rev app fold_left length seq combine map Z.of_nat Nat.sub Pos.of_succ_nat Pos.succ]. unfold_rops. facts5.
+    eexists. split; [reflexivity|]. close5 4992.
+  Qed.
+
+  Theorem traj5_end_acc_weighted :
+    exists vr, traj_acc (Rnd_ops rnd) (trajpoly5_gen (Rnd_ops rnd) ts p0 p1 v0 v1 a0 a1) ts = Some vr /\
+      Rabs (vr - a1) <= 33 * eps * traj5_acc_scale ts p0 p1 v0 v1 a0 a1 + 49920 * eta * traj5_eta_scale 5 3 ts p0 p1 v0 v1 a0 a1.
+  Proof.
+    unfold traj_acc, poly_eval, c2_of, trajpoly5_gen, half.
+    cbn [rev app fold_left length seq combine map Z.of_nat Nat.sub Pos.of_succ_nat Pos.succ]. unfold_rops. facts5.
+    eexists. split; [reflexivity|]. close5 24960.
+  Qed.
+End Quintic.
+
+Definition traj5_Snat (ts p0 p1 v0 v1 a0 a1 : R) : R :=
+  Rabs p0 + Rabs p1 + Rabs ts * (Rabs v0 + Rabs v1) + Rabs ts ^ 2 * (Rabs a0 + Rabs a1).
+
+Lemma traj5_scales ts p0 p1 v0 v1 a0 a1 : ts <> 0 ->
+  traj5_pos_scale ts p0 p1 v0 v1 a0 a1 <= 32 * traj5_Snat ts p0 p1 v0 v1 a0 a1 /\
+  traj5_vel_scale ts p0 p1 v0 v1 a0 a1 <= 120 * (traj5_Snat ts p0 p1 v0 v1 a0 a1 / Rabs ts) /\
+  traj5_acc_scale ts p0 p1 v0 v1 a0 a1 <= 360 * (traj5_Snat ts p0 p1 v0 v1 a0 a1 / Rabs ts ^ 2).
+Proof.
+  intros Hts. unfold traj5_pos_scale, traj5_vel_scale, traj5_acc_scale, traj5_Snat.
+  assert (HT : 0 < Rabs ts) by (apply Rabs_pos_lt; exact Hts).
+  assert (HU : 0 < / Rabs ts) by (apply Rinv_0_lt_compat; exact HT).
+  pose proof (Rabs_pos v0) as V0. pose proof (Rabs_pos v1) as V1. pose proof (Rabs_pos a0) as A0. pose proof (Rabs_pos a1) as A1.
+  pose proof (Rabs_pos p0) as Q0. pose proof (Rabs_pos p1) as Q1. pose proof (Rabs_pos (p1 - p0)) as Pp.
+  assert (Hp : Rabs (p1 - p0) <= Rabs p0 + Rabs p1).
+  { unfold Rminus. eapply Rle_trans; [apply Rabs_triang|]. rewrite Rabs_Ropp. lra. }
+  set (T := Rabs ts) in *. set (u := / T) in *.
+  assert (HT2 : 0 <= T ^ 2) by (apply pow_le; lra). assert (HU2 : 0 <= u ^ 2) by (apply pow_le; lra).
+  replace ((Rabs p0 + Rabs p1 + T * (Rabs v0 + Rabs v1) + T ^ 2 * (Rabs a0 + Rabs a1)) / T)
+    with (Rabs p0 * u + Rabs p1 * u + (Rabs v0 + Rabs v1) + T * Rabs a0 + T * Rabs a1) by (unfold u; field; lra).
+  replace ((Rabs p0 + Rabs p1 + T * (Rabs v0 + Rabs v1) + T ^ 2 * (Rabs a0 + Rabs a1)) / T ^ 2)
+    with (Rabs p0 * u ^ 2 + Rabs p1 * u ^ 2 + Rabs v0 * u + Rabs v1 * u + (Rabs a0 + Rabs a1)) by (unfold u; field; lra).
+  replace (Rabs (p1 - p0) / T) with (Rabs (p1 - p0) * u) by reflexivity.
+  replace (Rabs (p1 - p0) / T ^ 2) with (Rabs (p1 - p0) * u ^ 2) by (unfold u; field; lra).
+  replace ((192 * Rabs v0 + 168 * Rabs v1) / T) with (192 * (Rabs v0 * u) + 168 * (Rabs v1 * u)) by (unfold u; field; lra).
+  assert (Rabs (p1 - p0) * u <= (Rabs p0 + Rabs p1) * u) by (apply Rmult_le_compat_r; lra).
+  assert (Rabs (p1 - p0) * u ^ 2 <= (Rabs p0 + Rabs p1) * u ^ 2) by (apply Rmult_le_compat_r; lra).
+  pose proof (Rmult_le_pos _ _ Q0 (Rlt_le _ _ HU)). pose proof (Rmult_le_pos _ _ Q1 (Rlt_le _ _ HU)).
+  pose proof (Rmult_le_pos _ _ Q0 HU2). pose proof (Rmult_le_pos _ _ Q1 HU2).
+  pose proof (Rmult_le_pos _ _ V0 (Rlt_le _ _ HU)). pose proof (Rmult_le_pos _ _ V1 (Rlt_le _ _ HU)).
+  pose proof (Rmult_le_pos _ _ (Rlt_le _ _ HT) V0). pose proof (Rmult_le_pos _ _ (Rlt_le _ _ HT) V1).
+  pose proof (Rmult_le_pos _ _ (Rlt_le _ _ HT) A0). pose proof (Rmult_le_pos _ _ (Rlt_le _ _ HT) A1).
+  pose proof (Rmult_le_pos _ _ HT2 A0). pose proof (Rmult_le_pos _ _ HT2 A1).
+  repeat split; lra.
+Qed.
+
+(* quintic, end values, natural scale.  Hypothesis rnd 2 = 2: the model computes the constant (a_real)(1.0 / 2) as
+   rnd (rnd 1 / rnd 2); 2 is a number of every binary format *)
+Theorem traj5_end_rounding_bound (rnd : R -> R) (eps eta : R) : std_model rnd eps eta -> eps <= / 1048576 -> eta <= 1 -> rnd 2 = 2 ->
+  forall ts p0 p1 v0 v1 a0 a1, ts <> 0 ->
+  let c := trajpoly5_gen (Rnd_ops rnd) ts p0 p1 v0 v1 a0 a1 in
+  let S := traj5_Snat ts p0 p1 v0 v1 a0 a1 in
+  exists pr vr ar, traj_pos (Rnd_ops rnd) c ts = Some pr /\ traj_vel (Rnd_ops rnd) c ts = Some vr /\ traj_acc (Rnd_ops rnd) c ts = Some ar /\
+    Rabs (pr - p1) <= 1056 * eps * S + 1664 * eta * traj5_eta_scale 5 5 ts p0 p1 v0 v1 a0 a1 /\
+    Rabs (vr - v1) <= 3960 * eps * (S / Rabs ts) + 9984 * eta * traj5_eta_scale 5 4 ts p0 p1 v0 v1 a0 a1 /\
+    Rabs (ar - a1) <= 11880 * eps * (S / Rabs ts ^ 2) + 49920 * eta * traj5_eta_scale 5 3 ts p0 p1 v0 v1 a0 a1.
+Proof.
+  intros M He Ht H2 ts p0 p1 v0 v1 a0 a1 Hts c S.
+  destruct (traj5_end_pos_weighted rnd eps eta M He Ht H2 ts p0 p1 v0 v1 a0 a1 Hts) as (pr & E1 & B1).
+  destruct (traj5_end_vel_weighted rnd eps eta M He Ht H2 ts p0 p1 v0 v1 a0 a1 Hts) as (vr & E2 & B2).
+  destruct (traj5_end_acc_weighted rnd eps eta M He Ht H2 ts p0 p1 v0 v1 a0 a1 Hts) as (ar & E3 & B3).
+  exists pr, vr, ar. split; [exact E1|]. split; [exact E2|]. split; [exact E3|].
+  destruct (traj5_scales ts p0 p1 v0 v1 a0 a1 Hts) as (S1 & S2 & S3). fold S in S1, S2, S3.
+  pose proof (eps_ge0 _ _ _ M) as Hu.
+  assert (33 * eps * traj5_pos_scale ts p0 p1 v0 v1 a0 a1 <= 33 * eps * (32 * S)) by (apply Rmult_le_compat_l; lra).
+  assert (33 * eps * traj5_vel_scale ts p0 p1 v0 v1 a0 a1 <= 33 * eps * (120 * (S / Rabs ts))) by (apply Rmult_le_compat_l; lra).
+  assert (33 * eps * traj5_acc_scale ts p0 p1 v0 v1 a0 a1 <= 33 * eps * (360 * (S / Rabs ts ^ 2))) by (apply Rmult_le_compat_l; lra).
+  repeat split; lra.
+Qed.
+
+Theorem traj5_end_rounding_bound_binary64 : forall ts p0 p1 v0 v1 a0 a1, ts <> 0 ->
+  let c := trajpoly5_gen (Rnd_ops rnd64) ts p0 p1 v0 v1 a0 a1 in
+  let S := traj5_Snat ts p0 p1 v0 v1 a0 a1 in
+  exists pr vr ar, traj_pos (Rnd_ops rnd64) c ts = Some pr /\ traj_vel (Rnd_ops rnd64) c ts = Some vr /\ traj_acc (Rnd_ops rnd64) c ts = Some ar /\
+    Rabs (pr - p1) <= 1056 * eps64 * S + 1664 * eta64 * traj5_eta_scale 5 5 ts p0 p1 v0 v1 a0 a1 /\
+    Rabs (vr - v1) <= 3960 * eps64 * (S / Rabs ts) + 9984 * eta64 * traj5_eta_scale 5 4 ts p0 p1 v0 v1 a0 a1 /\
+    Rabs (ar - a1) <= 11880 * eps64 * (S / Rabs ts ^ 2) + 49920 * eta64 * traj5_eta_scale 5 3 ts p0 p1 v0 v1 a0 a1.
+Proof.
+  apply (traj5_end_rounding_bound _ _ _ std_model_binary64 eps64_small eta64_le1). apply (rnd64_IZR 2). simpl. lia.
+Qed.
+
+(* ------------------------------------------------------------------ non-vacuity *)
+(* 1: the identity rounding is a model (eps = eta = 0): the bound is 0, the computed end values ARE p1 and v1 *)
+Example traj3_end_id : forall ts p0 p1 v0 v1, ts <> 0 ->
+  traj_pos (Rnd_ops (fun v => v)) (trajpoly3_gen (Rnd_ops (fun v => v)) ts p0 p1 v0 v1) ts = Some p1 /\
+  traj_vel (Rnd_ops (fun v => v)) (trajpoly3_gen (Rnd_ops (fun v => v)) ts p0 p1 v0 v1) ts = Some v1.
+Proof.
+  intros ts p0 p1 v0 v1 Hts.
+  assert (Z : forall x y, Rabs (x - y) <= 0 -> x = y).
+  { intros x y H. pose proof (Rabs_pos (x - y)). destruct (Req_dec (x - y) 0) as [E|E]; [lra|]. apply Rabs_no_R0 in E. lra. }
+  destruct (traj3_end_pos_weighted _ 0 0 std_model_id ltac:(lra) ltac:(lra) ts p0 p1 v0 v1 Hts) as (pr & E1 & B1).
+  destruct (traj3_end_vel_weighted _ 0 0 std_model_id ltac:(lra) ltac:(lra) ts p0 p1 v0 v1 Hts) as (vr & E2 & B2).
+  rewrite E1, E2. split; f_equal; apply Z; lra.
+Qed.
+
+(* 2: a rounding that is NOT exact and satisfies every hypothesis: rnd v = v (1 + 2^-20), eps = 2^-20, eta = 0 *)
+Lemma std_model_scale20 : std_model (fun v => v * (1 + / 1048576)) (/ 1048576) 0.
+Proof.
+  constructor; [|ring|lra|lra].
+  intros v. replace (v * (1 + / 1048576) - v) with (v * / 1048576) by ring. rewrite Rabs_mult, (Rabs_pos_eq (/ 1048576)) by lra. lra.
+Qed.
+Example traj3_end_scale20 : forall ts p0 p1 v0 v1, ts <> 0 ->
+  let rnd := fun v => v * (1 + / 1048576) in
+  exists pr, traj_pos (Rnd_ops rnd) (trajpoly3_gen (Rnd_ops rnd) ts p0 p1 v0 v1) ts = Some pr /\
+    Rabs (pr - p1) <= 100 * / 1048576 * traj3_S ts p0 p1 v0 v1.
+Proof.
+  intros ts p0 p1 v0 v1 Hts rnd.
+  destruct (traj3_end_pos_rounding_bound _ _ _ std_model_scale20 ltac:(lra) ltac:(lra) ts p0 p1 v0 v1 Hts) as (pr & E & B & _).
+  exists pr. split; [exact E|]. lra.
+Qed.
+
+(* 3: binary64, the trajectory of PolyProofs.traj3_ex (ts = 2, 0 -> 10, v0 = 1, v1 = -1): both end values within 2^-40 *)
+Example traj3_end_binary64_ex :
+  exists pr vr, traj_pos (Rnd_ops rnd64) (trajpoly3_gen (Rnd_ops rnd64) 2 0 10 1 (-1)) 2 = Some pr /\
+                traj_vel (Rnd_ops rnd64) (trajpoly3_gen (Rnd_ops rnd64) 2 0 10 1 (-1)) 2 = Some vr /\
+                Rabs (pr - 10) <= / 1099511627776 /\ Rabs (vr - -1) <= / 1099511627776.
+Proof.
+  destruct (traj3_end_rounding_bound_binary64 2 0 10 1 (-1) ltac:(lra)) as (pr & vr & E1 & E2 & B1 & B2).
+  exists pr, vr. split; [exact E1|]. split; [exact E2|].
+  unfold traj3_Snat, traj3_eta_scale in B1, B2.
+  replace (10 - 0) with 10 in * by ring.
+  assert (A0 : Rabs 0 = 0) by apply Rabs_R0. assert (A1 : Rabs 1 = 1) by (apply Rabs_pos_eq; lra).
+  assert (A2 : Rabs 2 = 2) by (apply Rabs_pos_eq; lra). assert (A10 : Rabs 10 = 10) by (apply Rabs_pos_eq; lra).
+  assert (Am : Rabs (-1) = 1) by (unfold Rabs; destruct Rcase_abs; lra).
+  rewrite A0, A1, A2, A10, Am in *.
+  assert (Ht : eta64 <= / 1267650600228229401496703205376).
+  { unfold eta64. change (/ 1267650600228229401496703205376) with (Flocq.Core.Raux.bpow Flocq.Core.Zaux.radix2 (-100)).
+    apply Flocq.Core.Raux.bpow_le. lia. }
+  assert (Ht0 : 0 <= eta64) by (apply (eta_ge0 _ _ _ std_model_binary64)).
+  rewrite eps64_val in *. cbn [pow] in B1, B2. split; lra.
 Qed.
